@@ -149,6 +149,11 @@ avx_rule_loadupib_avx2 (OrcCompiler *compiler, void *user, OrcInstruction *insn)
   const int size = src->size << compiler->loop_shift;
   switch (size) {
     case 1:
+      /* one output element needs one source byte only */
+      orc_x86_emit_mov_memoffset_avx (compiler, 1, offset, ptr_reg, dest->alloc,
+          FALSE);
+      orc_avx_emit_psrlw_imm (compiler, 8, dest->alloc, tmp);
+      break;
     case 2:
       orc_x86_emit_mov_memoffset_avx (compiler, 2, offset, ptr_reg, dest->alloc,
           FALSE);
